@@ -1,1 +1,41 @@
-"""Input-shape predicates referenced by known_findings.json entries."""
+"""Input-shape predicates referenced by known_findings.json entries (evaluated on the failing case,
+so that a *different* input failing the same way is still reported as a violation)."""
+from . import model as M
+
+
+def _api(case):
+    return case.get("api") or {}
+
+
+def no_namespace(case):
+    api = _api(case)
+    import os
+    root = os.path.commonprefix([f["package"] for f in api.get("files", [])]).rstrip(".")
+    parts = root.split(".")
+    import re
+    parts = [p for p in parts if not re.match(r"^v[0-9]+(p[0-9]+)?((alpha|beta)[0-9]*)?$", p)]
+    return len(parts) <= 1
+
+
+def sub_refs_root(case):
+    api = _api(case)
+    import os
+    root = os.path.commonprefix([f["package"] for f in api.get("files", [])]).rstrip(".")
+    for f in api.get("files", []):
+        if f["package"] == root:
+            continue
+        for _, m, _p in M.walk_messages(f):
+            for fld in m["fields"]:
+                tn = fld.get("type_name") or (fld.get("map_value") or {}).get("type_name")
+                if tn and tn.startswith("." + root + ".") and not tn.startswith("." + f["package"] + "."):
+                    return True
+    return False
+
+
+def map_first_field_recursive(case):
+    api = _api(case)
+    for f in api.get("files", []):
+        for _, m, _p in M.walk_messages(f):
+            if m["fields"] and m["fields"][0]["type"] == "map" and m["fields"][0]["map_value"]["type"] == "message":
+                return True
+    return False
